@@ -30,7 +30,7 @@ def cases(tier: str, seed: int) -> list[dict]:
     out = []
     base = {"var": "", "mode": "name", "clim": [], "array": [], "transform": False, "refuse": ""}
     for w in GW.geo_worlds(tier, seed, big=False):
-        CD.add_data_vars(w, rng, rich=False)
+        CD.add_data_vars(w, rng, rich=False, odd_floats=True)
         nvalid_unknown = None
         ev = [dict(base, a="PolyCollection"),
               dict(base, a="PolyCollection", var="plotv", mode="name"),
@@ -39,6 +39,9 @@ def cases(tier: str, seed: int) -> list[dict]:
               dict(base, a="PolyCollection", var="plotv", mode="name", api="make_patch_collection"),     # the older public name
               dict(base, a="PolyCollection", var="pv", mode="name", clim=[-5, 123456]),
               dict(base, a="PolyCollection", var="plotv", mode="name", transform=True),
+              dict(base, a="PolyCollection", var="single", mode="name"),
+              dict(base, a="PolyCollection", var="bigend", mode="array"),
+              dict(base, a="PolyCollection", var="pv", mode="anon"),
               dict(base, a="PolyCollection", var="temp", mode="name", refuse="dims"),
               dict(base, a="PolyCollection", var="eta", mode="array", refuse="dims"),
               dict(base, a="PolyCollection", var="plotv", mode="name", array=[1, 2, 3], refuse="both"),
